@@ -146,7 +146,7 @@ func c03Retry(e *Env, s *Sched) {
 			SkipEdge: func(from *ssa.BasicBlock, idx int) bool {
 				return doneNil(from, idx) || backEdge(from, idx) || e.Contradicts(known, from, idx)
 			},
-			Bad:      isStatusStore})
+			Bad: isStatusStore})
 		var facts []string
 		if bad != nil {
 			facts = append(facts, "status store reachable at "+e.InstrPos(bad))
